@@ -15,9 +15,25 @@ fn main() {
     let mut it = std::env::args().skip(1);
     let cmd = it.next().unwrap_or_default();
     let args = util::Args::parse(it);
-    // panics inside the code under test are data for the scenarios that use catch_unwind;
-    // keep the default hook quiet
-    std::panic::set_hook(Box::new(|_| {}));
+    // panics inside the code under test are data for the scenarios that use catch_unwind: the hook
+    // records where it happened; a panic outside catch_unwind still aborts the run (tool error)
+    std::panic::set_hook(Box::new(|info| {
+        let loc = info
+            .location()
+            .map(|l| format!("{}:{}", l.file().rsplit("/repo/").next().unwrap_or(l.file()), l.line()))
+            .unwrap_or_default();
+        let msg = if let Some(s) = info.payload().downcast_ref::<&str>() {
+            s.to_string()
+        } else if let Some(s) = info.payload().downcast_ref::<String>() {
+            s.clone()
+        } else {
+            String::new()
+        };
+        *util::LAST_PANIC.lock().unwrap() = format!("{loc} {msg}");
+        if !util::CATCHING.load(std::sync::atomic::Ordering::SeqCst) {
+            eprintln!("harness panic at {loc}: {msg}");
+        }
+    }));
     match cmd.as_str() {
         "paging" => paging::run(&args),
         "z80" => z80rec::run(&args),
